@@ -865,6 +865,14 @@ def strip_line_terminator(line: str) -> str:
     return line
 
 
+def indent(source: str, prefix: str) -> str:
+    """Add prefix to the beginning of all non-blank lines of source code.
+
+    Like textwrap.indent, which however uses str.splitlines() (see split_lines).
+    """
+    return "".join(prefix + line if line.strip() else line for line in split_lines(source))
+
+
 def line_terminator(source: str) -> str:
     """The line terminator that the source uses (the one of its first line). \\n if it has none."""
     terminator = re.search(r"\r\n|\r|\n", source)
